@@ -60,7 +60,7 @@ N = 64
 
 
 def plan(tier, seed):
-    total = 48000 if tier == 'quick' else 3_000_000
+    total = 48000 if tier == 'quick' else 7_000_000
     parts = 16
     secs = 45 if tier == 'quick' else 600
     return [{'name': f'expr{p}', 'mode': 'nrt', 'kind': 'expr',
